@@ -3,7 +3,7 @@
    Scoreboard_*_py / Project_*_py / *_cy are REGENERATED from /repo on every run (Gen/). *)
 From Coq Require Import ZArith List Bool.
 Require Import SP.Base.PyRt SP.Gen.ScoreboardCy SP.Gen.ScoreboardPy SP.Gen.ProjectPy SP.Spec.Runs
-               SP.Proofs.ScoreboardAlg SP.Proofs.CollectCy SP.Proofs.CollectPy.
+               SP.Proofs.ScoreboardAlg SP.Proofs.CollectCy SP.Proofs.CollectPy SP.Proofs.RunsChar.
 Import ListNotations.
 Open Scope Z_scope.
 
@@ -96,6 +96,12 @@ Theorem C17_collect_cython : forall (V : Type) sd ed r size (sb : list V) pred i
                    sI eI (scan_m minDuration r))).
 Proof. intros; now apply collectIntervals_cy_spec. Qed.
 Print Assumptions C17_collect_cython.
+
+(* the functional spec [runs] is the declarative notion: its elements are exactly the maximal runs *)
+Theorem C17_runs_are_the_maximal_runs : forall p a n s e,
+  In (s, e) (runs (pvals p a n) a None) <-> maximal_run p a (a + Z.of_nat n) s e.
+Proof. exact runs_char. Qed.
+Print Assumptions C17_runs_are_the_maximal_runs.
 
 (* non-vacuity: a concrete table *)
 Example C17_example :
